@@ -734,6 +734,20 @@ def r16k(F):
 		out.append(Result('16.k', False, 'anchor:ReadOnlyNetworkGraph', 'no construction of ReadOnlyNetworkGraph found in NetworkGraph'))
 	return out
 
+def r16l(F):
+	"""(i) the smallest amount an MPP part may carry is the requested amount divided by max_path_count ROUNDED UP (rounded down, max_path_count
+	parts of exactly that size fall short and one more path than allowed is needed); (ii) a blinded path whose introduction node is given as
+	(direction, scid) over one of our own unannounced channels starts at the end of that channel the direction names - us or the
+	counterparty - not always at the counterparty (the tail would be attached to a node that is not its introduction node)"""
+	out = []
+	fu = _gr(F)
+	ex = Expr(fu)
+	dc = [expr_str(ex.of_operand(a)) for b, ci in fu.calls() if norm(ci.get('f') or '').endswith('::div_ceil') for a in ci['args'][:2]]
+	ok = any('final_value_msat' in dc[i] and 'max_path_count' in dc[i + 1] for i in range(0, len(dc) - 1, 2))
+	out.append(Result('16.l', ok, ('ok:' if ok else 'rounding:') + 'minimal-contribution-rounded-up', 'get_route: the minimal per-path contribution is final_value_msat.div_ceil(max_path_count): %s' % (ok or dc[:4]), 1, where=None if ok else F.where(fu.name)))
+	out += P1_who_may_call(F, '16.l', ['lightning::blinded_path::Direction::select_node_id'], [R + 'calculate_blinded_path_intro_points'], floor=1)
+	return out
+
 RULES = [
 	('16.a', 'every relaxation step of the path search is dominated by the admission tests (length, CLTV, contribution, htlc_minimum, fee limit)', r16a),
 	('16.c', 'graph channels become candidates only when enabled, without unknown required features, and not our own when first hops are given', r16c),
@@ -745,8 +759,10 @@ RULES = [
 	('16.i', 'the RouteHops handed out take SCID, fee, CLTV delta and features from the chosen candidates', r16i),
 	('16.j', 'recomputed hop fees are taken on the amount the hop transfers, htlc_minimum top-up included', r16j),
 	('16.k', 'the node-counter bound handed to the router covers every live counter (next_node_counter - 1)', r16k),
+	('16.l', 'minimal MPP contribution rounded up; compact blinded introduction nodes resolved with their direction', r16l),
 	('16.b', 'every relaxation step is behind the previously-failed, remaining-capacity, self-channel and path-htlc-minimum tests', r16b),
 	('16.p', 'same-name field transfer: structs carrying this property\'s quantities are filled from the same-named field or a reviewed alias (rules/provenance.py)', lambda F: provenance.for_property(F, 'C16', '16.p')),
 	('16.q', 'no call hands a value named like one parameter of the callee to a different parameter (swapped type-compatible arguments; rules/provenance.py)', lambda F: provenance.swaps_for_property(F, 'C16', '16.q')),
 	('16.z', 'named protocol / policy constants in this property\'s files have their reviewed values (rules/provenance.py)', lambda F: provenance.consts_for_property(F, 'C16', '16.z')),
+	('16.v', 'field-versus-field comparisons (a received value against a limit, an id against an id) are the reviewed ones: same fields, same operator (rules/provenance.py)', lambda F: provenance.cmps_for_property(F, 'C16', '16.v')),
 ]
